@@ -399,7 +399,7 @@ def search_fault(ctx, rng, fault, tries=40):
     return False
 
 
-MODELLED = {"duct-zero-wall", "pins-do-not-fit", "wire-too-thick", "clad-too-thick", "zero-pin-pitch", "negative-pin-diameter", "zero-duct-ftf",
+MODELLED = {"bypass-fraction-one", "duct-zero-wall", "pins-do-not-fit", "wire-too-thick", "clad-too-thick", "zero-pin-pitch", "negative-pin-diameter", "zero-duct-ftf",
             "duct-ge-pitch", "unequal-outer-ducts", "missing-bc", "negative-flowrate", "flow-gap-no-bypass", "zero-core-length",
             "odd-duct-values"}
 
